@@ -86,6 +86,30 @@ def run_c10(ctx, chk):
     chk.instance('R-RENDER', short(disp), 'each row is rendered independently of the others', carried is not None and not bad,
                  detail='loop-carried mutable locals of the row loop: %s' % (carried,), span=body.span,
                  what='state other than the result vector survives from one row to the next while rendering: %s' % [(b[0], b[1]) for b in bad])
+    # D4: reader and writer agree on how many columns a cell takes: draw() measures
+    # UnicodeWidthChar::width of the character it stores first in the cell; display() must decide
+    # "the next cell is a placeholder" by the same measure of the first character of the cell text
+    scope = [disp] + prog.closures_of.get(disp, [])
+    for c_ in list(scope):
+        scope += [x for x in prog.closures_of.get(c_, []) if x not in scope]
+    other = []
+    for f_ in scope:
+        for bi_, t_ in prog.calls(prog.bodies[f_]):
+            nm = (t_['func'].get('fn') or {}).get('resolved') or (t_['func'].get('fn') or {}).get('path', '')
+            if 'unicode_width' in nm and not nm.startswith('<char as unicode_width::UnicodeWidthChar>::width'):
+                other.append('%s (line %s)' % (nm, t_['span'].get('line')))
+    ws = [w for w in sr['widths'] if w['ep'] == disp and w['func'] in scope]
+    notfirst = []
+    for w in ws:
+        ch = w['ch']
+        pv = getattr(ch, 'prov', None)
+        if not (isinstance(pv, tuple) and pv and pv[0] == 'char-of' and pv[2] == 'first'):
+            notfirst.append(repr(ch))
+    chk.instance('R-AGREE', short(disp), 'cell width measured as in draw: char width of the first character of the cell text',
+                 bool(ws) and not other and not notfirst,
+                 detail='; '.join(other + sorted(set(notfirst))[:2]) or '%d width measurements, all of the first character of a cell text' % len(ws), span=body.span,
+                 what='display() decides the placeholder skip by a different width measure than draw(): %s' % (
+                     '; '.join(other + sorted(set(notfirst))[:2]) or 'no width measurement found'))
     chk.trust('may-write analysis E3 (mtsa/effects.py)', 'collection summaries')
 
 
@@ -373,7 +397,8 @@ def blank_provenance(ctx, chk, meths, want, rule='R-BLANK'):
     agg = {}
     for e in sr['events']:
         ev = e['ev']
-        if e['func'] not in funcs or ev[0] != 'map.insert' or g.level_of(e) != 'cell':
+        # every cell stored while the method runs, whichever helper performs the store
+        if e['ep'] not in funcs or ev[0] != 'map.insert' or g.level_of(e) != 'cell':
             continue
         v = ev[3]
         pv = getattr(v, 'prov', None)
@@ -444,6 +469,28 @@ def run_c07(ctx, chk):
     for (f, c), a in sorted(agg.items()):
         chk.instance('R-FOOT', f, c, a['ok'], detail=a['why'] or '%d visits' % a['n'], span=a['span'], what='erase touches a cell outside the documented range: ' + a['why'])
     chk.floor('erase footprint sites', len(agg), 4)
+    # erased cells take the cursor rendition: dropping a cell / row from the sparse grid instead (it then
+    # reads as default_char()) is only the same thing when the cursor rendition is default_char()
+    rem = {}
+    for e in sr['events']:
+        ev = e['ev']
+        if e['ep'] not in {ep(m) for m in er} or e['func'] not in funcs or ev[0] != 'map.remove':
+            continue
+        lvl = g.level_of(e)
+        if lvl is None:
+            continue
+        st = e['st']
+        cur = get(eng, st, 'cursor', 'attr')
+        okd, whyd = g.is_default_char(eng, st, cur)
+        k = (short(e['func']), 'removed %s reads as the cursor rendition @%s' % (lvl, site_ord(prog, e)))
+        a = rem.setdefault(k, dict(ok=True, why='', span=e['span'], n=0))
+        a['n'] += 1
+        if not okd and a['ok']:
+            a['ok'] = False
+            a['why'] = 'a %s is removed from the grid while the cursor rendition is not shown to be default_char(): %s | %s' % (lvl, whyd, e['entry'])
+    for (f, c), a in sorted(rem.items()):
+        chk.instance('R-ABSENT', f, c, a['ok'], detail=a['why'] or '%d visits' % a['n'], span=a['span'],
+                     what='erase drops cells from the grid, which then read as the default blank instead of the cursor rendition: ' + a['why'])
     # unsupported selectors are ignored: no grid operation on those paths
     for m, first_bad in (('erase_in_line', 3), ('erase_in_display', 4)):
         f = ep(m)
